@@ -29,6 +29,7 @@ ClocksFull == <<0, 8000, 48000, 90000>>
 ChansFull  == <<0, 1, 2>>
 ClocksSmall == <<0, 48000, 90000>>
 ChansSmall  == <<0, 2>>
+ClocksTiny  == <<0, 48000>>
 
 \* ---- the descriptor domain ----------------------------------------------------------------
 LinesH264 == << "",
@@ -104,11 +105,11 @@ FirstDefault == N - Len(DefaultCodecs) + 1
 
 \* parsed forms of every descriptor and of its case-changed variant, computed once (every distinct
 \* mime type and fmtp line is parsed once)
-MimeTab  == [m \in {Dom[i].mime : i \in 1..N} |-> ParseMime(m)]
-MimeTabS == [m \in {Dom[i].mime : i \in 1..N} |-> ParseMime(SwapCase(m))]
-LineTab  == [l \in {Dom[i].line : i \in 1..N} |-> ParseLine(l)]
-Par  == [i \in 1..N |-> Assemble(MimeTab[Dom[i].mime], Dom[i].clock, Dom[i].ch, LineTab[Dom[i].line])]
-ParS == [i \in 1..N |-> Assemble(MimeTabS[Dom[i].mime], Dom[i].clock, Dom[i].ch, LineTab[Dom[i].line])]
+MimeTab  == [m \in {Dom[i].mime : i \in 1..N} |-> ParseMime(m)] @@ NoFcn
+MimeTabS == [m \in {Dom[i].mime : i \in 1..N} |-> ParseMime(SwapCase(m))] @@ NoFcn
+LineTab  == [ln \in {Dom[i].line : i \in 1..N} |-> ParseLine(ln)] @@ NoFcn
+Par  == Force([i \in 1..N |-> Assemble(MimeTab[Dom[i].mime], Dom[i].clock, Dom[i].ch, LineTab[Dom[i].line])])
+ParS == Force([i \in 1..N |-> Assemble(MimeTabS[Dom[i].mime], Dom[i].clock, Dom[i].ch, LineTab[Dom[i].line])])
 
 Code(i, j) == CodeOf(Par[i], ParS[i], Par[j], ParS[j])
 
